@@ -223,7 +223,31 @@ func fontSet(thorough bool) []fontSpec {
 	res = append(res, fontSpec{ID: "cid3", Desc: "constructed CID-keyed CFF, 3 private dicts assigned block-wise, own font matrices", build: cid3Font})
 	res = append(res, fontSpec{ID: "cid3rt", Desc: "read back CID-keyed CFF with FDSelect format 3 (closure installed by the reader)",
 		build: roundTripID("cid3rt", cid3Font)})
+	deg := func() (*sfnt.Font, error) {
+		f, err := richFont("ttf", 79)
+		if err == nil {
+			degenerate(f, false)
+		}
+		return f, err
+	}
+	deg2 := func() (*sfnt.Font, error) {
+		f, err := richFont("ttf", 79)
+		if err == nil {
+			degenerate(f, true)
+		}
+		return f, err
+	}
+	res = append(res, fontSpec{ID: "deg2", Desc: "the degenerate TrueType font, coverage indices in descending glyph order (the encoders refuse it: Write panics, alone and concurrently)", build: deg2})
+	res = append(res, fontSpec{ID: "deg", Desc: "the rich TrueType font with degenerate values: explicit class 0 / false entries in every class and coverage map, alternates descending with a duplicate, ligature sets reversed, empty-not-nil slices, unsorted duplicate feature lookups, empty tables", build: deg})
 	if thorough {
+		degc := func() (*sfnt.Font, error) {
+			f, err := richFont("cff", 80)
+			if err == nil {
+				degenerate(f, false)
+			}
+			return f, err
+		}
+		res = append(res, fontSpec{ID: "degc", Desc: "the rich CFF font with degenerate values in the layout tables", build: degc})
 		lkc := func() (*sfnt.Font, error) { return richFont("cff", 80) }
 		res = append(res, fontSpec{ID: "lkc", Desc: "constructed CFF with GSUB 1-6 / GPOS 1-4,7,8 in all formats", build: lkc})
 		res = append(res, fontSpec{ID: "lkcrt", Desc: "read back CFF with GSUB 1-6 / GPOS 1-4,7,8 in all formats", build: roundTripID("lkcrt", lkc)})
@@ -242,6 +266,7 @@ func fontSet(thorough bool) []fontSpec {
 			// whether the result really aliases post.macRoman is reported by `c16 fonts`
 			return f, nil
 		})})
+	res = append(res, catalogFonts()...)
 	return res
 }
 
